@@ -73,6 +73,10 @@ class Pattern(Serialize, ABC):
             value = ('(?%s:%s)' % (f, value))
         return value
 
+    def _deserialize(self):
+        # Serialization turns the frozenset into a list; the lexer compares flags as sets (and hashes patterns).
+        self.flags = frozenset(self.flags)
+
 
 class PatternStr(Pattern):
     __serialize_fields__ = 'value', 'flags', 'raw'
